@@ -444,6 +444,64 @@ mod verif_cex_history {
         }
     }
 
+    // C07 / C01: a parent with MANY committed child buckets, each holding a nested bucket.  ONE write transaction changes
+    // something in the nested bucket of one child (the child's own entries stay as they are), lets go of every handle, opens
+    // all the other children (any cache of handles is churned), and then reads the change back through fresh handles; then
+    // commit, read_all, check().  Exercises: what the transaction keeps of a child whose only changes sit one level further down
+    fn run_many_children_shape(children: u32, touched: u32) -> Result<(), String> {
+        let p = std::env::temp_dir().join(format!("jammdb-cex-children-{}-{}-{}.db", children, touched, std::process::id()));
+        let _ = std::fs::remove_file(&p);
+        let res = (|| {
+            let what = format!("shape: bucket `p` with {} child buckets, each with one key and a nested bucket `inner` (page size 1024); ONE transaction puts a key into the `inner` of child #{} only, drops its handles, opens every other child, and reads the key back", children, touched);
+            let db = OpenOptions::new().pagesize(1024).open(&p).map_err(|e| format!("open: {:?}", e))?;
+            let nm = |i: u32| format!("b{:04}", i).into_bytes();
+            let mut m = MB::default();
+            {
+                let tx = db.tx(true).unwrap();
+                let par = tx.create_bucket("p").unwrap();
+                let mut pm = MB::default();
+                for i in 0..children {
+                    let c = par.create_bucket(nm(i)).unwrap(); c.put("own", "1").unwrap();
+                    let inner = c.create_bucket("inner").unwrap(); inner.put("k", "v").unwrap();
+                    let mut im = MB::default(); im.items.insert(b"k".to_vec(), M::Kv(b"v".to_vec())); im.next_int = 1;
+                    let mut cm = MB::default(); cm.items.insert(b"own".to_vec(), M::Kv(b"1".to_vec())); cm.items.insert(b"inner".to_vec(), M::B(im)); cm.next_int = 2;
+                    pm.items.insert(nm(i), M::B(cm)); pm.next_int += 1;
+                }
+                m.items.insert(b"p".to_vec(), M::B(pm));
+                tx.commit().map_err(|e| format!("{}: first commit fails: {:?}", what, e))?;
+            }
+            {
+                let tx = db.tx(true).unwrap();
+                {
+                    { let inner = tx.get_bucket("p").unwrap().get_bucket(nm(touched)).unwrap().get_bucket("inner").unwrap(); inner.put("visit", "0").unwrap(); }
+                    if let Some(M::B(cm)) = model_at(&mut m, &[b"p".to_vec()]).items.get_mut(&nm(touched)) { if let Some(M::B(im)) = cm.items.get_mut(&b"inner".to_vec()) { im.items.insert(b"visit".to_vec(), M::Kv(b"0".to_vec())); im.next_int += 1; } }
+                    { let par = tx.get_bucket("p").unwrap(); for i in 0..children { if i != touched { let c = par.get_bucket(nm(i)).map_err(|e| format!("{}: child missing: {}", what, kind(&e)))?; let _ = c.get_kv("own"); } } }
+                    let got = tx.get_bucket("p").unwrap().get_bucket(nm(touched)).unwrap().get_bucket("inner").unwrap().get_kv("visit").map(|kv| kv.value().to_vec());
+                    if got != Some(b"0".to_vec()) { return Err(format!("{}: inside the transaction the key reads back as {:?}", what, got)); }
+                    let mbm = model_at(&mut m, &[b"p".to_vec()]).clone();
+                    read_back(&tx.get_bucket("p").unwrap(), &mbm, &format!("{} (inside the write transaction)", what))?;
+                }
+                tx.commit().map_err(|e| format!("{}: commit fails: {:?}", what, e))?;
+            }
+            db.check().map_err(|e| format!("{}: DB::check() fails: {:?}", what, e))?;
+            read_all(&db, &m, &what)?;
+            Ok(())
+        })();
+        let _ = std::fs::remove_file(&p);
+        res
+    }
+
+    #[test]
+    fn cex_history_many_children() {
+        for (children, touched) in [(8u32, 3u32), (140, 0), (300, 0), (300, 299), (300, 150)] {
+            match std::panic::catch_unwind(|| run_many_children_shape(children, touched)) {
+                Ok(Ok(())) => {}
+                Ok(Err(e)) => { println!("CEX history (C07/C01): {}", e); panic!("children shape mismatch"); }
+                Err(_) => { println!("CEX history (C01 nothing panics): many-children shape {} / {} panicked", children, touched); panic!("children shape panic"); }
+            }
+        }
+    }
+
     #[test]
     fn cex_history_deep_shapes() {
         for (lo, hi) in [(0u32, 280u32), (150, 450), (300, 600), (450, 750), (600, 900), (900, 1200), (1200, 1500), (100, 1400)] {
